@@ -64,6 +64,16 @@ def disk_line(i, name, vals, layout):
     return b"%4d %7d %s %s\n" % (8, i, name.encode(), b" ".join(b"%d" % x for x in v))
 
 
+PARENT = {"sda1": "sda", "nvme0n1p1": "nvme0n1", "cciss/c0d0p1": "cciss/c0d0"}      # sysfs: a partition is a directory of its disk
+SYSFS_LAYOUTS = (11, 15, 17)     # fields of /sys/block/<disk>/[<part>/]stat: classic, 4.18+ (discards), 5.5+ (flushes)
+
+
+def sysfs_stat(vals, nfields):
+    """the kernel's "%8lu %8lu ..." stat line: same columns as /proc/diskstats after the name, sectors in columns 2 and 6"""
+    v = (vals + [900 + j for j in range(20)])[:nfields]
+    return b" ".join(b"%8d" % x for x in v) + b"\n"
+
+
 def disk_ref(i, vals, layout):
     if layout == 7:
         return dict(read_count=vals[0], read_bytes=vals[2] * 512, write_count=vals[4], write_bytes=vals[6] * 512, read_time=0,
@@ -101,6 +111,9 @@ def run_case(case, w):
                 bad.append(("net:total", "got %r expected %r" % (freeze(got), tot)))
     elif k == "disk":
         devs, layout, bval = case[1], case[2], case[3]
+        # source of the counters: /proc/diskstats, or (no such file: restricted procfs, very old kernel) the per-device stat
+        # files under /sys/block, which carry the same columns in the same unit (512-byte sectors)
+        sysfs = len(case) > 4 and case[4] == "sysfs"
         for d in list(w.children.get("/sys/block", ())):
             w.remove("/sys/block/" + d)
         lines, exp, whole = [], {}, []
@@ -109,6 +122,18 @@ def run_case(case, w):
             if bval is not None:
                 for col_, v_ in (bval if isinstance(bval[0], (list, tuple)) else [bval]):
                     vals[col_] = v_
+            if sysfs:
+                sname = name.replace("/", "!")          # the name the kernel lists there
+                base = "/sys/block/" + (sname if DEVS[name] else PARENT[name].replace("/", "!") + "/" + sname)
+                w.mkdir(base)
+                w.set_file(base + "/stat", sysfs_stat(vals, layout))
+                exp[sname] = disk_ref(i, vals, 20)
+                if DEVS[name]:
+                    w.mkdir(base + "/queue")
+                    w.set_file(base + "/queue/hw_sector_size", b"4096\n")
+                    w.set_file(base + "/queue/logical_block_size", b"4096\n")
+                    whole.append(sname)
+                continue
             lay = layout if not (layout == 7 and DEVS[name]) else 14     # 2.6: 7 fields only on partition lines
             lines.append(disk_line(i, name, vals, lay))
             exp[name] = disk_ref(i, vals, lay)
@@ -119,13 +144,16 @@ def run_case(case, w):
                 w.set_file("/sys/block/" + name.replace("/", "!") + "/queue/hw_sector_size", b"4096\n")
                 w.set_file("/sys/block/" + name.replace("/", "!") + "/queue/logical_block_size", b"4096\n")
                 whole.append(name)
-        w.set_file("/proc/diskstats", b"".join(lines))
+        if sysfs:
+            w.remove("/proc/diskstats")
+        else:
+            w.set_file("/proc/diskstats", b"".join(lines))
         got = outcome(psutil.disk_io_counters, perdisk=True, nowrap=False)
         if not devs:
             if got != ("ok", {}):
                 bad.append(("disk:empty-perdisk", repr(got)))
         elif got[0] != "ok" or recs(got[1], DISK_FIELDS) != exp:
-            bad.append(("disk:perdisk:layout%d" % layout, "got %r expected %r" % (freeze(got), exp)))
+            bad.append(("disk:perdisk:%slayout%d" % ("sysfs-stat:" if sysfs else "", layout), "got %r expected %r" % (freeze(got), exp)))
         got = outcome(psutil.disk_io_counters, perdisk=False, nowrap=False)
         if not whole:
             if got != ("ok", None):
@@ -366,6 +394,23 @@ def build_cases(thorough):
             if col in (2, 6) and v * 512 >= 2 ** 80:
                 continue
             cases.append(("disk", ["sda", "sda1"], 20, [col, v]))
+    # the same device mixes and boundary counters read from the /sys/block stat files (no /proc/diskstats); a partition brings
+    # its disk along (it is a sub-directory of it)
+    seen = set()
+    for layout in SYSFS_LAYOUTS:
+        for n in range(0, dmax + 1):
+            for combo in itertools.combinations(names, n):
+                if n >= 3 and not thorough:
+                    continue
+                full = [d for d in names if d in combo or any(PARENT.get(c) == d for c in combo)]
+                if (layout, tuple(full)) in seen:
+                    continue
+                seen.add((layout, tuple(full)))
+                cases.append(("disk", full, layout, None, "sysfs"))
+        cases.append(("disk", ["sda", "sda1", "loop0"], layout, [[c_, 0] for c_ in range(11)], "sysfs"))
+    for col in range(11):
+        for v in BOUND:
+            cases.append(("disk", ["sda", "sda1"], 17, [col, v], "sysfs"))
     for i, nm in enumerate(["sdq", "nvme7n1", "md77", "loop42", "dm-9"]):
         cases.append(("disk-seq", nm, i % 2 == 0))
     sv = [0, 1, 1000, 2 ** 31, 2 ** 40]
@@ -391,10 +436,12 @@ def run(ctx):
            "rule": "one evaluation = one /proc/net/dev or /proc/diskstats(+/sys/block) content or statvfs result read through the public "
                    "functions (per-device and total forms); distinct by construction; every column carries a distinct prime-scaled value",
            "per_dimension": kinds, "exhaustive": True, "samples": [list(c) for c in sample(cases, 6)],
-           "layouts": [14, 18, 20, 7, 15]}
+           "layouts": [14, 18, 20, 7, 15], "sysfs_stat_layouts": list(SYSFS_LAYOUTS)}
     return {"coverage": cov, "violations": add_histories(viols, cases, n, list),
             "assumptions": ["15-field (Linux 2.4) layout: psutil's in-code description is the only specification; the reference adopts it",
-                            "whole disk <=> /sys/block/<name with '/' -> '!'> exists"]}
+                            "whole disk <=> /sys/block/<name with '/' -> '!'> exists",
+                            "without /proc/diskstats the kernel's listing is /sys/block/<disk>/stat and /sys/block/<disk>/<part>/stat, "
+                            "devices named as the directories are; unit 512-byte sectors as in diskstats"]}
 
 
 def replay(ctx, case):
